@@ -410,6 +410,10 @@ func runSplitCase(c Case, tr *Tracer) {
 	})
 	// site = entry point / actual coding, so that a finding recorded for one coding never hides another
 	site := fmt.Sprintf("%s.split/%d", proto, actual)
+	if actual != req && actual != 8 && err == nil {
+		// a coding that was neither requested nor the documented UCS-2 fallback: a site of its own
+		site = fmt.Sprintf("%s.split/%d->%d", proto, req, actual)
+	}
 	if panicked {
 		site += ".panic"
 		err = context.Canceled
